@@ -71,9 +71,9 @@ theorem interfaceItems_ok :
       Grow st.types st'.types ∧ st'.root = st.root ∧ itf'.id = itf.id ∧
       ∀ (container : Str) (ifaces : List (Str × List (Str × Tree))) (s : Scope) (acc : List (Str × Tree))
         (res : Scope × List (Str × Tree)),
-        Sim ρ st.types st.scope s.binds → ValOnly s → ExpRel ρ st.types itf.exports acc →
+        Sim ρ st.types st.scope s.binds → ExpRel ρ st.types itf.exports acc →
         items.foldlM (denStep container ifaces) (s, acc) = some res → (res.2.map (·.1)).Nodup →
-        Sim ρ st'.types st'.scope res.1.binds ∧ ValOnly res.1 ∧ ExpRel ρ st'.types itf'.exports res.2 := by
+        Sim ρ st'.types st'.scope res.1.binds ∧ ExpRel ρ st'.types itf'.exports res.2 := by
   intro items
   induction items with
   | nil =>
@@ -81,10 +81,10 @@ theorem interfaceItems_ok :
     simp only [interfaceItems] at h
     cases h
     refine ⟨Grow.refl _, rfl, rfl, ?_⟩
-    intro container ifaces s acc res hsim hval hexp hfold _
+    intro container ifaces s acc res hsim hexp hfold _
     simp only [List.foldlM_nil, Option.pure_def, Option.some.injEq] at hfold
     subst hfold
-    exact ⟨hsim, hval, hexp⟩
+    exact ⟨hsim, hexp⟩
   | cons i r ih =>
     intro st st' itf itf' hvf h
     have hvfi := hvf i (List.mem_cons_self ..)
@@ -102,7 +102,7 @@ theorem interfaceItems_ok :
           obtain ⟨g1, sc1, rt1, k1⟩ := funcType_ok (ρ := ρ) hf
           obtain ⟨g2, rt2, id2, k2⟩ := ih _ _ _ _ hvfr h
           refine ⟨g1.trans g2, rt2.trans rt1, id2, ?_⟩
-          intro container ifaces s acc res hsim hval hexp hfold hnd
+          intro container ifaces s acc res hsim hexp hfold hnd
           simp only [List.foldlM_cons, Option.bind_eq_bind] at hfold
           obtain ⟨acc1, h1, h2⟩ := Option.bind_eq_some_iff.mp hfold
           simp only [denStep, denoteItem] at h1
@@ -115,8 +115,8 @@ theorem interfaceItems_ok :
           have hins : alInsert itf.exports n (.func f) = itf.exports ++ [(n, .func f)] :=
             alInsert_fresh _ _ _ (alGet_none_not_mem _ _ (by simpa using hfreshE))
           have hexp1 : ExpRel ρ st1.types (itf.exports ++ [(n, .func f)]) (acc ++ [(n, t)]) :=
-            All2.append (hexp.mono g1) ⟨rfl, HK_func hfr⟩
-          exact k2 container ifaces s (acc ++ [(n, t)]) res hsim1 hval (by simpa [hins] using hexp1) h2 hnd
+            All2.append (hexp.mono g1) ⟨rfl, HK_func hfr, fun _ hk => by cases hk⟩
+          exact k2 container ifaces s (acc ++ [(n, t)]) res hsim1 (by simpa [hins] using hexp1) h2 hnd
       · cases h
     | record n fs => exact typeStep ih hvfr (by rfl) h
     | variant n cs => exact typeStep ih hvfr (by rfl) h
@@ -130,17 +130,17 @@ where
         Grow st.types st'.types ∧ st'.root = st.root ∧ itf'.id = itf.id ∧
         ∀ (container : Str) (ifaces : List (Str × List (Str × Tree))) (s : Scope) (acc : List (Str × Tree))
           (res : Scope × List (Str × Tree)),
-          Sim ρ st.types st.scope s.binds → ValOnly s → ExpRel ρ st.types itf.exports acc →
+          Sim ρ st.types st.scope s.binds → ExpRel ρ st.types itf.exports acc →
           r.foldlM (denStep container ifaces) (s, acc) = some res → (res.2.map (·.1)).Nodup →
-          Sim ρ st'.types st'.scope res.1.binds ∧ ValOnly res.1 ∧ ExpRel ρ st'.types itf'.exports res.2)
+          Sim ρ st'.types st'.scope res.1.binds ∧ ExpRel ρ st'.types itf'.exports res.2)
       (hvfr : ∀ j ∈ r, isVF j = true) (hvd : isValueDecl i = true)
       (h : interfaceItems st (i :: r) itf = .ok (st', itf')) :
       Grow st.types st'.types ∧ st'.root = st.root ∧ itf'.id = itf.id ∧
       ∀ (container : Str) (ifaces : List (Str × List (Str × Tree))) (s : Scope) (acc : List (Str × Tree))
         (res : Scope × List (Str × Tree)),
-        Sim ρ st.types st.scope s.binds → ValOnly s → ExpRel ρ st.types itf.exports acc →
+        Sim ρ st.types st.scope s.binds → ExpRel ρ st.types itf.exports acc →
         (i :: r).foldlM (denStep container ifaces) (s, acc) = some res → (res.2.map (·.1)).Nodup →
-        Sim ρ st'.types st'.scope res.1.binds ∧ ValOnly res.1 ∧ ExpRel ρ st'.types itf'.exports res.2 := by
+        Sim ρ st'.types st'.scope res.1.binds ∧ ExpRel ρ st'.types itf'.exports res.2 := by
     have hstep : ∃ st1 exports, itemTypeDecl st i itf.exports = .ok (st1, exports) ∧
         interfaceItems st1 r { itf with exports := exports } = .ok (st', itf') := by
       cases i with
@@ -176,7 +176,7 @@ where
     obtain ⟨g1, rt1, k1⟩ := itemTypeDecl_ok (ρ := ρ) hvd hd
     obtain ⟨g2, rt2, id2, k2⟩ := ih _ _ _ _ hvfr h
     refine ⟨g1.trans g2, rt2.trans rt1, id2, ?_⟩
-    intro container ifaces s acc res hsim hval hexp hfold hnd
+    intro container ifaces s acc res hsim hexp hfold hnd
     simp only [List.foldlM_cons, Option.bind_eq_bind] at hfold
     obtain ⟨acc1, h1, h2⟩ := Option.bind_eq_some_iff.mp hfold
     simp only [denStep] at h1
@@ -193,11 +193,11 @@ where
       simp only [hmore, List.map_append, List.append_assoc] at hnd
       rw [List.nodup_append] at hnd
       exact hnd.2.2 _ hm _ (List.mem_append_left _ (List.mem_map_of_mem hx)) rfl
-    have hk := k1 container ifaces s s1 out hsim hval hso hfresh
+    have hk := k1 container ifaces s s1 out hsim hso hfresh
     obtain ⟨ks, hks, hexpks⟩ := hk.exp
     have hexp1 : ExpRel ρ st1.types exports (acc ++ out) := by
       rw [hks]
       exact All2.append2 (hexp.mono g1) hexpks
-    exact k2 container ifaces s1 (acc ++ out) res hk.sim hk.val hexp1 h2 hnd
+    exact k2 container ifaces s1 (acc ++ out) res hk.sim hexp1 h2 hnd
 
 end Wac.Elab
